@@ -74,15 +74,15 @@ theorem unify_dbshape (f : Nat) : ∀ t1 t2 w, DBShape (unify f t1 t2) w := by
             · exact yield_ (fun k => by simp [unify, h1, h2, hxy])
             · exact dbshape_of_eq (g' := bindGen x (.var y)) (w' := w) rfl (fun k => by simp [unify, h1, h2, hxy]) (bindGen_dbshape _ _ _)
           | atom s =>
-            exact dbshape_of_eq (g' := bindGen x (.atom s)) (w' := markCyc (f+1) x (.atom s) w) (markCyc_db _ _ _ _) (fun k => by simp only [unify, h1, h2]) (bindGen_dbshape _ _ _)
+            exact dbshape_of_eq (g' := bindGen x (.atom s)) (w' := markCyc cycFuel x (.atom s) w) (markCyc_db _ _ _ _) (fun k => by simp only [unify, h1, h2]) (bindGen_dbshape _ _ _)
           | int i =>
-            exact dbshape_of_eq (g' := bindGen x (.int i)) (w' := markCyc (f+1) x (.int i) w) (markCyc_db _ _ _ _) (fun k => by simp only [unify, h1, h2]) (bindGen_dbshape _ _ _)
+            exact dbshape_of_eq (g' := bindGen x (.int i)) (w' := markCyc cycFuel x (.int i) w) (markCyc_db _ _ _ _) (fun k => by simp only [unify, h1, h2]) (bindGen_dbshape _ _ _)
           | fn g as =>
-            exact dbshape_of_eq (g' := bindGen x (.fn g as)) (w' := markCyc (f+1) x (.fn g as) w) (markCyc_db _ _ _ _) (fun k => by simp only [unify, h1, h2]) (bindGen_dbshape _ _ _)
+            exact dbshape_of_eq (g' := bindGen x (.fn g as)) (w' := markCyc cycFuel x (.fn g as) w) (markCyc_db _ _ _ _) (fun k => by simp only [unify, h1, h2]) (bindGen_dbshape _ _ _)
         | atom s =>
           cases a2 with
           | var y =>
-            exact dbshape_of_eq (g' := bindGen y (.atom s)) (w' := markCyc (f+1) y (.atom s) w) (markCyc_db _ _ _ _) (fun k => by simp only [unify, h1, h2]) (bindGen_dbshape _ _ _)
+            exact dbshape_of_eq (g' := bindGen y (.atom s)) (w' := markCyc cycFuel y (.atom s) w) (markCyc_db _ _ _ _) (fun k => by simp only [unify, h1, h2]) (bindGen_dbshape _ _ _)
           | atom s' =>
             by_cases hs : s = s'
             · exact yield_ (fun k => by simp [unify, h1, h2, hs])
@@ -92,7 +92,7 @@ theorem unify_dbshape (f : Nat) : ∀ t1 t2 w, DBShape (unify f t1 t2) w := by
         | int i =>
           cases a2 with
           | var y =>
-            exact dbshape_of_eq (g' := bindGen y (.int i)) (w' := markCyc (f+1) y (.int i) w) (markCyc_db _ _ _ _) (fun k => by simp only [unify, h1, h2]) (bindGen_dbshape _ _ _)
+            exact dbshape_of_eq (g' := bindGen y (.int i)) (w' := markCyc cycFuel y (.int i) w) (markCyc_db _ _ _ _) (fun k => by simp only [unify, h1, h2]) (bindGen_dbshape _ _ _)
           | atom s' => exact fail_ (fun k => by simp [unify, h1, h2])
           | int j =>
             by_cases hs : i = j
@@ -102,7 +102,7 @@ theorem unify_dbshape (f : Nat) : ∀ t1 t2 w, DBShape (unify f t1 t2) w := by
         | fn g as =>
           cases a2 with
           | var y =>
-            exact dbshape_of_eq (g' := bindGen y (.fn g as)) (w' := markCyc (f+1) y (.fn g as) w) (markCyc_db _ _ _ _) (fun k => by simp only [unify, h1, h2]) (bindGen_dbshape _ _ _)
+            exact dbshape_of_eq (g' := bindGen y (.fn g as)) (w' := markCyc cycFuel y (.fn g as) w) (markCyc_db _ _ _ _) (fun k => by simp only [unify, h1, h2]) (bindGen_dbshape _ _ _)
           | atom s' => exact fail_ (fun k => by simp [unify, h1, h2])
           | int j => exact fail_ (fun k => by simp [unify, h1, h2])
           | fn g' as' =>
